@@ -570,6 +570,41 @@ def utility_counting(rep, rule, mod):
               'reports whether registrations remain' if not probs else
               {'problems': sorted(set(probs))[:3]}, construct='uncache', node=unc)
 
+    pop = None
+    for k, v in um.items():
+        if k.endswith('__populate_cache'):
+            pop = v
+    rep.require(pop is not None, '__populate_cache vanished')
+    probs = []
+    n = 0
+    for ps in normal(summaries(pop)):
+        its = [c[5:-1] for c, t, p in ps.order if t and c.startswith('ITER(')]
+        inc = [e for e in ps.events if e.kind == 'call' and
+               nt(e.r.func).endswith('__cache_utility')]
+        if not its:
+            if inc:
+                probs.append('counts without a registration')
+            continue
+        if len(its) != 1 or 'self._utility_registrations.items()' not in its[0]:
+            probs.append('walks %s' % [i[:50] for i in its])
+            continue
+        n += 1
+        E = 'EACH(%s)' % its[0]
+        conds = [c for c, t, p in ps.order if not c.startswith('ITER(')]
+        if conds:
+            probs.append('a listed registration is counted depending on `%s` (every '
+                         'registration counts: a component listed under N names has '
+                         'count N)' % conds[0][:60])
+        if [[nt(a) for a in e.r.args] for e in inc] != [['%s[0][0]' % E, '%s[1][0]' % E]]:
+            probs.append('counts %s' % [nt(e.r)[-70:] for e in inc])
+    if not n:
+        probs.append('the listing is never walked')
+    rep.check(rule, '_UtilityRegistrations.__populate_cache', not probs,
+              'the count is rebuilt with one increment per listed registration '
+              '(provided = key[0], component = value[0]), unconditionally'
+              if not probs else {'problems': sorted(set(probs))[:3]},
+              construct='populate', node=pop)
+
     uc = find_def(mod, '_UnhashableComponentCounter')
     ops = {}
     for name, m in methods_of(uc).items():
